@@ -23,7 +23,7 @@ def universe_hash():
 
 
 def plan(tier, seed, complete=False):
-    items, zinfo = PL.plan_docs(tier, seed, complete)
+    items, zinfo = PL.plan_docs(tier, seed, complete, check="C05")
     return {
         "items": items, "zones": zinfo, "exhaustive": False,
         "rule": "documents of the frozen universes; position oracle over every position-carrying token; distinct = distinct token-kind sequences",
